@@ -153,6 +153,15 @@ func (c *Conversation) receiveDecoded(message messageWithHeader) (plain MessageP
 		defer func() { c.forgetVersionUnlessKeyExchangeStarted(err) }()
 	}
 
+	if c.theirInstanceTag == 0 {
+		// a message that ends up rejected does not bind the conversation to the instance it claims to come from
+		defer func() {
+			if err != nil {
+				c.theirInstanceTag = 0
+			}
+		}()
+	}
+
 	if err = c.checkVersion(message); err != nil {
 		return
 	}
